@@ -4,7 +4,7 @@ from ._r import run_r, replay_r
 from ..acceptors_r2 import acc_C17, make_index_observers, wavg, close
 from ..explore_r import Scenario, S, mkcfg, bl, sl, bm, sm, run_once, IndexMarket
 
-WIT = ["index_clock_advances", "unequal_shares", "three_components", "past_time_with_unequal_component_prices",
+WIT = ["index_clock_advances", "index_read_while_components_are_ahead", "unequal_shares", "three_components", "past_time_with_unequal_component_prices",
        "index_observations"]
 RULE = ("share vectors from {1,2,5}^n (n = 2, 3) x index market listed directly after its components or followed by a further "
         "plain market, or moved to the front of the market list, or itself a component of a second index market (its own price differing from its basket) x all executions within the deviation bound of trading programs "
@@ -133,7 +133,7 @@ def invalid_component_sets(res):
 # direct driving of Simulator / Market / IndexMarket: evaluations interleaved with clock advances, trades,
 # a component added later and outstanding shares revised (not reachable through a runner configuration)
 
-D_OPS = [("eval",), ("adv",), ("add",), ("shares", 0, 5), ("shares", 1, 1), ("trade", 0, 104.0), ("trade", 1, 96.0), ("trade", 2, 108.0),
+D_OPS = [("eval",), ("adv",), ("adv_c",), ("add",), ("shares", 0, 5), ("shares", 1, 1), ("trade", 0, 104.0), ("trade", 1, 96.0), ("trade", 2, 108.0),
          # resting quotes: a never-traded component's market price follows its mid price, which moves without any fill
          ("quote", 0, 98.0, 106.0), ("quote", 1, 94.0, 100.0), ("bid", 0, 102.0),
          # a component stopped / restarted while the others keep running
@@ -161,13 +161,18 @@ class DWorld:
         sim._add_market(idx)
         self.idx = idx
         self.added = False
+        self.split = False  # True: the components' clocks are one step ahead of the index market's (between the two halves of a step)
         self.wit = common.Counter()
         self.adv()
         for m in self.ms + [idx]:
             m._is_running = True
 
     def adv(self):
-        self.sim._update_times_on_markets(self.sim.markets)
+        if self.split:
+            self.sim._update_time_on_market(self.idx)  # the components went ahead before (op adv_c)
+            self.split = False
+        else:
+            self.sim._update_times_on_markets(self.sim.markets)
         t = self.idx.get_time()
         comps = self.ms[:3] if self.added else self.ms[:2]
         want = wavg([(c.outstanding_shares, c.get_fundamental_price(t)) for c in comps])
@@ -181,6 +186,15 @@ class DWorld:
         k = op[0]
         if k == "adv":
             self.adv()
+        elif k == "adv_c":
+            # first half of a step: the plain markets are stepped, the index market not yet (what a custom loop, or anything
+            # looking at the index from inside a component's clock update, sees)
+            if self.split:
+                return False
+            for m in self.ms:
+                self.sim._update_time_on_market(m)
+            self.split = True
+            self.wit.inc("components_one_step_ahead_of_the_index")
         elif k == "add":
             if self.added:
                 return False
@@ -237,7 +251,7 @@ class DWorld:
     def canon(self):
         idx = self.idx
         t = idx.get_time()
-        return (t, self.added, tuple(m.outstanding_shares for m in self.ms), tuple(tuple(m.get_market_prices()) for m in self.ms),
+        return (t, self.split, self.added, tuple(m.outstanding_shares for m in self.ms), tuple(tuple(m.get_market_prices()) for m in self.ms),
                 tuple((m.get_best_buy_price(), m.get_best_sell_price()) for m in self.ms), tuple(m.is_running for m in self.ms))
 
 
@@ -298,7 +312,7 @@ def run(tier, seed):
     run_r("C17", tier, seed, deep, [acc_C17], b + 1, on_exc, WIT, RULE, res=res, label="share_grid_deeper")
     invalid_component_sets(res)
     direct_search(res, 5 if tier == "quick" else 6)
-    res.require_witness(["component_added_after_evaluation", "shares_revised_after_evaluation", "direct_index_evaluations"])
+    res.require_witness(["component_added_after_evaluation", "shares_revised_after_evaluation", "direct_index_evaluations", "components_one_step_ahead_of_the_index"])
     return res
 
 
